@@ -27,6 +27,26 @@ static struct iv_timer tm, ctm[2];
 static struct iv_task ctask[2];
 static long allocs0;
 
+#include <iv_tls.h>
+/* a module with per-thread state, as iv_tls(3) describes: its tear-down hook may call any ivykis function */
+struct modstate { int inited; };
+static int mod_inits, mod_deinits;
+static void mod_init_thread(void *_m) { ((struct modstate *)_m)->inited = 1; __atomic_add_fetch(&mod_inits, 1, __ATOMIC_RELAXED); }
+static void mod_deinit_thread(void *_m)
+{
+	struct modstate *m = _m;
+	if (!m->inited)
+		mc_fail("tls-hook", "module tear-down hook ran for a thread state that was never set up");
+	if (!iv_inited())
+		mc_fail("tls-hook", "inside a module's thread tear-down hook iv_inited() is false: the library state is not available to the hook");
+	iv_validate_now();
+	m->inited = 0;
+	__atomic_add_fetch(&mod_deinits, 1, __ATOMIC_RELAXED);
+}
+static struct iv_tls_user mod_tls_user = { .sizeof_state = sizeof(struct modstate), .init_thread = mod_init_thread, .deinit_thread = mod_deinit_thread };
+static void mod_ctor(void) __attribute__((constructor));
+static void mod_ctor(void) { iv_tls_user_register(&mod_tls_user); }
+
 static void child_task(void *_i)
 {
 	mc_obs("C%ld:task", (long)_i);
@@ -125,6 +145,8 @@ static void exec_one(void)
 	if (env_joined_threads != nthreads)
 		mc_fail("thread-join", "%d threads were created through iv_thread_create but %d were joined", nthreads, env_joined_threads);
 	iv_deinit();
+	if (mod_inits != mod_deinits)
+		mc_fail("tls-hook", "module thread-state hooks: %d set-ups but %d tear-downs after every loop thread ended", mod_inits, mod_deinits);
 	if (env_lib_allocs_live != allocs0)
 		mc_fail("leak-mem", "%ld library allocations live after all threads ended and iv_deinit", env_lib_allocs_live - allocs0);
 	if (env_lib_fds_open()) {
